@@ -212,14 +212,9 @@ func (e *Enc) newHeapVersion(st *bstate, c *Comp) string {
 	if e.curWrite != nil {
 		e.curWrite[c.Name] = true
 	}
-	// every heap state is well-typed: sized integers stay within their range
-	if lo, hi, ok := intRange(c.ValTyp); ok && c.ValTyp != nil {
-		switch c.Kind {
-		case "field", "cell":
-			e.items = append(e.items, fmt.Sprintf("(assert (forall ((r Int)) (! (and (<= %s (select %s r)) (<= (select %s r) %s)) :pattern ((select %s r)))))", lo, n, n, hi, n))
-		case "elems":
-			e.items = append(e.items, fmt.Sprintf("(assert (forall ((r Int) (i Int)) (! (and (<= %s (select (select %s r) i)) (<= (select (select %s r) i) %s)) :pattern ((select (select %s r) i)))))", lo, n, n, hi, n))
-		}
+	// every heap state is well-typed: sized integers stay within their range, slices are well-formed
+	for _, ax := range heapTypeAxioms(e.W, c, n) {
+		e.items = append(e.items, ax)
 	}
 	return n
 }
@@ -1014,4 +1009,28 @@ func globalKind(p *types.Package) string {
 		return "global-ext"
 	}
 	return "global"
+}
+
+// heapTypeAxioms: facts that hold of every well-typed heap, for version n of component c.
+func heapTypeAxioms(w *World, c *Comp, n string) []string {
+	if c.ValTyp == nil {
+		return nil
+	}
+	var out []string
+	if lo, hi, ok := intRange(c.ValTyp); ok {
+		switch c.Kind {
+		case "field", "cell":
+			out = append(out, fmt.Sprintf("(assert (forall ((r Int)) (! (and (<= %s (select %s r)) (<= (select %s r) %s)) :pattern ((select %s r)))))", lo, n, n, hi, n))
+		case "elems":
+			out = append(out, fmt.Sprintf("(assert (forall ((r Int) (i Int)) (! (and (<= %s (select (select %s r) i)) (<= (select (select %s r) i) %s)) :pattern ((select (select %s r) i)))))", lo, n, n, hi, n))
+		}
+	} else if w.sortOf(c.ValTyp) == "Slice" {
+		switch c.Kind {
+		case "field", "cell":
+			out = append(out, fmt.Sprintf("(assert (forall ((r Int)) (! (wfslice (select %s r)) :pattern ((select %s r)))))", n, n))
+		case "elems":
+			out = append(out, fmt.Sprintf("(assert (forall ((r Int) (i Int)) (! (wfslice (select (select %s r) i)) :pattern ((select (select %s r) i)))))", n, n))
+		}
+	}
+	return out
 }
